@@ -417,6 +417,33 @@ pub fn run(ctx: &Ctx) -> Report {
             if !thorough && si >= first_pair && m != 0 {
               continue;
             }
+            // the window in which "is the excess over the target enough for a non-dust change output" flips:
+            // value - target = change dust limit + fee of one more output, for an unknown transaction size;
+            // swept sat by sat for the plain single-inscription wallets at 0 and 1 sat/vB
+            if n <= 2 && others.is_empty() && m == 0 && *off == 0 {
+              for r in [Recipient::P2tr, Recipient::P2wpkh] {
+                for fr in [0.0f64, 1.0] {
+                  let lo = if fr == 0.0 { 290 } else { 330 + 100 };
+                  let hi = if fr == 0.0 { 335 } else { 330 + 260 };
+                  for gap in lo..=hi {
+                    let Some(tv) = ov.checked_sub(gap) else { continue };
+                    if tv == 0 {
+                      continue;
+                    }
+                    for t in [Tgt::Value(tv), Tgt::Exact(tv)] {
+                      let c = Case { values: w.clone(), outgoing: (oi, *off), others: others.clone(), marks: marks.clone(), recipient: r, target: t, fee_rate: fr };
+                      evals += 1;
+                      match check(&c) {
+                        Ok(o) => *outcomes.entry(o).or_default() += 1,
+                        Err((class, what)) => {
+                          viol.entry(class).or_insert((what, c.json()));
+                        }
+                      }
+                    }
+                  }
+                }
+              }
+            }
             for r in recipients {
               for t in &targets {
                 for fr in &fee_rates {
